@@ -375,7 +375,7 @@ def gen_lowrank(rng, kind=None):
         r0 = [1] + [rho[k] + rng.randint(0, 2) for k in range(1, d)] + [1]
         dr, nswp = rng.choice([(0, 0), (0, 1), (1, 1)]), rng.choice([1, 2])
     return dict(ns=ns, rho=rho, r0=r0, dr_min=dr[0], dr_max=dr[1], nswp=nswp, seed=seed, kind=kind,
-                cache=rng.random() < 0.4, vld=rng.random() < 0.3, scale=rng.choice(['1', 'big', 'small', 'p300', 'm300']))
+                cache=rng.random() < 0.4, vld=rng.random() < 0.5, scale=rng.choice(['1', 'big', 'small', 'p300', 'm300', 'p400', 'm400']))
 
 
 def gen_degenerate(rng):
@@ -413,6 +413,10 @@ def lowrank_target(c):
         A = A * 2.0 ** 300
     elif c['scale'] == 'm300':
         A = A * 2.0 ** -300
+    elif c['scale'] == 'p400':
+        A = A * 2.0 ** 400
+    elif c['scale'] == 'm400':
+        A = A * 2.0 ** -400
     elif c['scale'] == 'const':
         A = np.full(A.shape, 2.5)
     elif c['scale'] == 'zero':
@@ -503,6 +507,11 @@ def oracle_exact(tn, c):
         if not err <= (0.0 if zero else 1e-6):
             return fail(tag + 'rank-rho target not reproduced', got=float(err), expected='<= 1e-6', ranks=rk,
                         stop=info.get('stop'), kNone=c.get('kNone'))
+        if I_vld is not None:
+            refv = dense_accuracy_on_data(Y, I_vld, y_vld)
+            if not abs(float(info['e_vld']) - refv) <= 1e-9 * (1 + abs(refv)) + 1e-12:
+                return fail(tag + 'info[e_vld] is not ||Y[I_vld] - y_vld|| / ||y_vld|| of the returned tensor',
+                            got=float(info['e_vld']), expected=refv)
         if I_vld is not None and not (0 <= info['e_vld'] <= 1e-6):
             return fail(tag + 'info[e_vld] not small although the target is reproduced', got=float(info['e_vld']))
         return None
@@ -936,7 +945,8 @@ def gen_accdata(rng):
     r = [1] + [rng.randint(1, 3) for _ in range(d - 1)] + [1]
     return dict(ns=ns, r=r, seed=rng.randrange(10 ** 6), m=rng.choice([1, 1, 2, 7, 20]),
                 kind=rng.choice(['far', 'far', 'near', 'exact', 'zero_data', 'zero_tensor', 'none']),
-                form=rng.choice(['array', 'list', 'int32_float32']), scale=rng.choice([1.0, 1.0, 2.0 ** 40, 2.0 ** -40]))
+                form=rng.choice(['array', 'list', 'int32_float32']),
+                scale=rng.choice([1.0, 1.0, 2.0 ** 40, 2.0 ** -40, 2.0 ** 400, 2.0 ** -400, 1e-120, 1e120]))
 
 
 def oracle_accdata(tn, c):
@@ -965,7 +975,7 @@ def oracle_accdata(tn, c):
     Ia, ya = I, y
     if c['form'] == 'list':
         Ia, ya = I.tolist(), y.tolist()
-    elif c['form'] == 'int32_float32':
+    elif c['form'] == 'int32_float32' and 1e-30 < c['scale'] < 1e30:
         Ia, ya = I.astype(np.int32), y.astype(np.float32)
         y = ya.astype(float)
     if c['kind'] == 'none':
@@ -1199,6 +1209,55 @@ def oracle_chain(tn, c):
         got = np.array([tn.get(Ys_, i) for i in I])
     if not np.all(np.abs(got - ref) <= 1e-8 * np.abs(ref)):
         return fail('long chain: rank-1 target not reproduced on sampled entries', got=float(got[0]), expected=float(ref[0]))
+    return None
+
+
+
+def gen_budget(rng):
+    cfg = _pair_cfg(rng, small=rng.random() < 0.5)
+    cfg.update(m=None, e=None, e_vld=None, hasI=False, hasy=False, kcb=None, kNone=None, scale=10 ** 6,
+               nswp=rng.choice([1, 2, 2, 3]))
+    cfg['cache'] = [] if cfg['cache'] is None else cfg['cache']
+    cfg['delta'] = rng.choice([0, 0, 1, -1, 5])
+    return cfg
+
+
+def oracle_budget(tn, cfg):
+    """budget taken from the cached run's own evaluation total m0: with m = m0 (or more) the cached run must be the
+    unbudgeted cached run (cache hits do not count against the budget: same stop, sweeps, cores, m); with m = m0 - 1 it
+    must stop by 'm' without exceeding the budget"""
+    def fail(what, **kw):
+        return dict(what='C05: ' + what, input=dict(budget=cfg), **kw)
+    g = lambda I: L.gfun(cfg['a'], cfg['b'], cfg['p'], I)
+
+    def call(m):
+        info = {}
+        cache = {tuple(i): float(v) for i, v in cfg['cache']}
+        with warnings.catch_warnings():
+            warnings.simplefilter('ignore')
+            with np.errstate(all='ignore'):
+                Y = tn.cross(lambda I: g(np.asarray(I)), L.make_Y0(cfg), m=m, nswp=cfg['nswp'], dr_min=cfg['dr_min'],
+                             dr_max=cfg['dr_max'], info=info, cache=cache, m_cache_scale=cfg['scale'])
+        return Y, info
+    try:
+        Y0_, i0 = call(None)
+        m0 = int(i0['m'])
+        if m0 < 2 or i0['stop'] != 'nswp':
+            return None
+        m = m0 + cfg['delta']
+        Y1_, i1 = call(m)
+    except Exception as e:  # noqa
+        return fail('cross raised ' + repr(e)[:200])
+    if cfg['delta'] >= 0:
+        if (i1['stop'], i1['nswp'], i1['m'], i1['m_cache']) != (i0['stop'], i0['nswp'], i0['m'], i0['m_cache']) or \
+                not cores_equal(Y0_, Y1_):
+            return fail('a budget m >= the evaluation total of the unbudgeted cached run changes the cached run (cache '
+                        'hits must not count against m)', m=m, got=[i1['stop'], i1['nswp'], i1['m'], i1['m_cache']],
+                        expected=[i0['stop'], i0['nswp'], i0['m'], i0['m_cache']])
+    else:
+        if i1['stop'] != 'm' or i1['m'] > m:
+            return fail('a budget below the evaluation total must stop the cached run by m within the budget', m=m,
+                        got=[i1['stop'], i1['m']])
     return None
 
 
@@ -1551,6 +1610,18 @@ def correspondence(R, ctx):
                        cases=na_, mismatches=len(abad), comparison='1e-9 relative; -1 for missing / all-zero data',
                        distribution=dict(kinds=['far', 'near', 'exact', 'zero_data', 'zero_tensor', 'none'],
                                          forms=['array', 'list', 'int32_float32']), first_mismatches=abad[:3]))
+    bbad, nb_ = [], 0
+    for j in range(400 if thorough else 80):
+        c = gen_budget(rng)
+        nb_ += 1
+        R.add_distinct(('budget', L.describe(c), c['delta']))
+        fl = oracle_budget(tn, c)
+        if fl:
+            bbad.append(fl)
+    R.corr.append(dict(name='cached runs with a budget taken from their own evaluation total (m0, m0+1, m0+5, m0-1)',
+                       cases=nb_, mismatches=len(bbad),
+                       comparison='m >= m0: stop, nswp, m, m_cache, cores identical to the unbudgeted cached run; '
+                                  'm = m0-1: stop m within the budget', distribution={}, first_mismatches=bbad[:3]))
     ebad, ne_ = [], 0
     for j in range(1500 if thorough else 300):
         c = gen_acc(rng)
@@ -1592,7 +1663,7 @@ def correspondence(R, ctx):
                        comparison='cores float64 and bitwise equal to the float64-objective run, with and without cache; '
                                   'info r/e/e_vld bitwise; cache values Python floats',
                        distribution=dict(forms=RET_FORMS), first_mismatches=rbad[:3]))
-    pair_bad = pair_bad + rbad + abad + ebad
+    pair_bad = pair_bad + rbad + abad + ebad + bbad
     hbad, nh = [], 0
     for _ in range(300 if thorough else 60):
         h = gen_history(rng)
@@ -1743,7 +1814,8 @@ def search(R, ctx, deep, hints):
             pass
     fs += [gen_forms(rng) for _ in range(600 if deep else 100)]
     os_ += [gen_objhist(rng) for _ in range(400 if deep else 60)]
-    for key, orc, gen, cnt in (('acc', oracle_acc, gen_acc, 1500 if deep else 300),
+    for key, orc, gen, cnt in (('budget', oracle_budget, gen_budget, 500 if deep else 80),
+                               ('acc', oracle_acc, gen_acc, 1500 if deep else 300),
                                ('escale', oracle_escale, gen_escale, 300 if deep else 40),
                                ('chain', oracle_chain, gen_chain, 4 if deep else 1)):
         cs = []
@@ -1808,7 +1880,7 @@ def replay(data):
         f = oracle_exact(tn, inp['lowrank'])
         print('replayed:', f)
         return 1 if f else 0
-    for key, orc in (('acc', oracle_acc), ('escale', oracle_escale), ('chain', oracle_chain)):
+    for key, orc in (('acc', oracle_acc), ('escale', oracle_escale), ('chain', oracle_chain), ('budget', oracle_budget)):
         if isinstance(inp, dict) and isinstance(inp.get(key), dict):
             f = orc(tn, inp[key])
             print('replayed:', f)
